@@ -749,7 +749,8 @@ func (e *executor) execTop(cmd string, w []string) error {
 				continue
 			}
 			bk := cryptoAttrKey(b.words())
-			if key == "ipsec-isakmp dynamic" || bk == "ipsec-isakmp dynamic" {
+			if key == "ipsec-isakmp dynamic" || bk == "ipsec-isakmp dynamic" || (key == "set peer" && bk == "set peer") {
+				// (a further `set peer` would be appended to the entry's peer list by a real device: the entry of ANOTHER peer)
 				return fmt.Errorf("sequence number %s of %s %s is occupied by `%s`: %s", seq, pw[1], name, b.Head, cmd)
 			}
 		}
